@@ -196,7 +196,11 @@ func (u *Unit) builtin(name string, c *ast.CallExpr, env *Env) []Outcome {
 			r := u.alloc(env, "mk")
 			hn := sliceHeapName(es)
 			h := u.heap(env, hn, ArrS(SRef, ArrS(SInt, es)))
-			zeroArr := Term{fmt.Sprintf("((as const %s) %s)", ArrS(SInt, es), u.zero(t.Elem()).S), ArrS(SInt, es)}
+			zeroArr := u.D.Fresh("zeros", ArrS(SInt, es))
+			{
+				j := u.D.Bound("j", SInt)
+				env.assume(Forall([]Term{j}, Same(Select(zeroArr, j), u.zero(t.Elem())), []Term{Select(zeroArr, j)}))
+			}
 			u.setHeap(env, hn, u.define(env, "h_"+hn, Store(h, r, zeroArr)))
 			return ret(env, Value{mkSlice(r, IntLit(0), n, cp), ty})
 		case *types.Map:
@@ -771,6 +775,12 @@ func (u *Unit) callByContract(c *ast.CallExpr, fi *FuncInfo, blk *Block, recv *V
 		if n := sig.Results().At(i).Name(); n != "" {
 			scope[n] = Value{rv, rt}
 		}
+	}
+	for _, cl := range blk.Of("ghost") {
+		name, sort := parseGhostDecl(cl.Text)
+		w := u.D.Fresh("w_"+fi.Obj.Name()+"_"+name, sort)
+		scope[name] = Value{w, nil}
+		env.alias[fi.Obj.Name()+"_"+name] = w // the caller may name the callee's witnesses (latest call wins)
 	}
 	sc.post = true
 	for _, cl := range blk.Of("ensures") {
